@@ -1,7 +1,7 @@
 (* C06 - pinned statements (cardinality estimator of SetSketch).  card_of_sum is the expression
    found, identically, in get_cardinal_stats and in the parallel get_cardinal_estimate. *)
 From Coq Require Import Reals List.
-From PMH Require Import Gen.SetSketchFormulas Proofs.SetFormulas.
+From PMH Require Import Gen.SetSketchFormulas Proofs.SetFormulas Gen.SetSketchLaw Proofs.SetLaw.
 Import ListNotations.
 Open Scope R_scope.
 
@@ -16,6 +16,22 @@ Proof. exact card_positive. Qed.
 Theorem C06_sum_antitone : forall b, 1 < b -> forall K K', Forall2 Rle K K' -> reg_sum b K' <= reg_sum b K.
 Proof. exact reg_sum_antitone. Qed.
 
+(* the register law, on the formulas regenerated from SetSketcher::sketch: the increment of the j-th value is
+   Exp(1)/(a (m - j)) (Renyi spacing of m exponentials of rate a); a register is >= k exactly when the value
+   reaching it is <= b^(1-k); a larger value gives a smaller register (so the early exits are sound) *)
+Theorem C06_increment_is_renyi_spacing : forall a m j, 0 < a -> j < m -> ss_gap a m j = / (a * (m - j)).
+Proof. exact ss_gap_is_renyi_spacing. Qed.
+
+Theorem C06_register_threshold : forall lnb x k, 0 < lnb -> 0 < x ->
+  (k <= ss_reg_real lnb x <-> x <= exp ((1 - k) * lnb)).
+Proof. exact ss_reg_threshold. Qed.
+
+Theorem C06_register_antitone : forall lnb x y, 0 < lnb -> 0 < x -> x <= y -> ss_reg_real lnb y <= ss_reg_real lnb x.
+Proof. exact ss_reg_antitone. Qed.
+
 Print Assumptions C06_card_monotone.
 Print Assumptions C06_card_positive.
 Print Assumptions C06_sum_antitone.
+Print Assumptions C06_increment_is_renyi_spacing.
+Print Assumptions C06_register_threshold.
+Print Assumptions C06_register_antitone.
